@@ -172,7 +172,11 @@ func c04RunRelay(in *c04In) Result {
 	case len(in.RTrailers) > 0:
 		class = "relay:unannounced"
 	}
-	return Result{Term: term, Obs: map[string]interface{}{"ops": w.ops, "trailer_header": w.snap["Trailer"], "post_keys": pk, "len": w.body.Len()}, Sig: "relay", Class: class,
+	sig := "relay"
+	if c04TrailerSharesHeader(in, w.snap) {
+		sig = c04SigSharedTrailer
+	}
+	return Result{Term: term, Obs: map[string]interface{}{"ops": w.ops, "trailer_header": w.snap["Trailer"], "post_keys": pk, "len": w.body.Len()}, Sig: sig, Class: class,
 		Direct: direct, Nontrivial: rl.Len > 0}
 }
 
@@ -207,6 +211,8 @@ func c04GenRelay(r *Rand, i int) *c04In {
 				}
 			}
 		}
+		// the recording writer tells an assignment by the changed value: header values differ from the trailer values
+		c04ShareTrailerNames(r, in, false, []string{"pending", "v1"})
 	}
 	return in
 }
